@@ -39,6 +39,7 @@ pub(super) fn check_selection_set<'doc>(
                             is_suspected_validation_bug: false,
                         });
                     }
+                    max_depth = max_depth.max(depth_so_far + *fragment_depth);
                 } else {
                     // Recursing without marking our fragment spread as used is fine,
                     // because validation guarantees that we do not have a self-referential
